@@ -161,147 +161,21 @@ def check_writers_layout(ctx, oid="C05.3"):
 
 
 def check_readers_layout(ctx, oid="C05.3"):
-    R = ctx.R
-    ev = ctx.evaluator(opaque={CS, PCS})
-    # txin_deser
-    fi = ctx.fn("bits.tx.txin_deser")
-    b = P(fi.params()[0], tm.BYTES)
-    rest, n = pcs(tm.slc(b, 36, None), 1), pcs(tm.slc(b, 36, None), 0)
-    want = ({"txid": tm.hexs(tm.slc(b, None, 32)), "vout": tm.b2i(tm.slc(b, 32, 36), "little"),
-             "scriptsig": tm.hexs(tm.slc(rest, None, n)), "sequence": tm.hexs(tm.slc(rest, n, tm.add([n, 4])))},
-            tm.slc(rest, tm.add([n, 4]), None))
-    got = ev.run(fi).value()
-    got_t = tuple(got) if isinstance(got, (list, tuple)) else got
-    R.check(oid, "TILE", fi, "txin_deser fields 32,4LE,cs,n,4 + remainder", tm.veq(tm.freeze(got_t), tm.freeze(want)),
-            tm.first_diff(got_t, want), expected=tm.show(want), found=tm.show(got))
-    # txout_deser
-    fi = ctx.fn("bits.tx.txout_deser")
-    b = P(fi.params()[0], tm.BYTES)
-    rest, n = pcs(tm.slc(b, 8, None), 1), pcs(tm.slc(b, 8, None), 0)
-    want = ({"value": tm.b2i(tm.slc(b, None, 8), "little"), "scriptpubkey": tm.hexs(tm.slc(rest, None, n))},
-            tm.slc(rest, n, None))
-    got = ev.run(fi).value()
-    got_t = tuple(got) if isinstance(got, (list, tuple)) else got
-    R.check(oid, "TILE", fi, "txout_deser fields 8LE,cs,n + remainder", tm.veq(tm.freeze(got_t), tm.freeze(want)),
-            tm.first_diff(got_t, want), expected=tm.show(want), found=tm.show(got))
-
-
-def thread_loop(R, fi, loops, parser, what, extra_args=(), oid="C05.3"):
-    """[THREAD] a loop that calls `parser` on the running remainder, rebinds the remainder to its second result and
-    appends its first result."""
-    for lp in loops:
-        for var, val in lp.body.items():
-            call = tm.app(parser, [T("acc", (var, lp.depth), tm.BYTES)] + list(extra_args))
-            for cand in (call,):
-                pat_rest = T("proj", (cand, 1))
-                if tm.veq(val, pat_rest):
-                    # found the threaded remainder; the parsed item must be collected from the same call
-                    item = T("proj", (cand, 0))
-                    collected = any(tm.contains(v2, lambda s: tm.veq(s, item)) and tm.contains(
-                        v2, lambda s: isinstance(s, T) and s.op == "acc" and s.args[0] == k2)
-                                    for k2, v2 in lp.body.items() if k2 != var)
-                    R.check(oid, "THREAD", fi, what, collected,
-                            "the item parsed by %s in this loop is not collected" % parser)
-                    return lp
-    # report what the loops do with the parser instead
-    R.check(oid, "THREAD", fi, what, False,
-            "no loop threads the remainder through %s (each call must consume the latest remainder and rebind it)" % parser,
-            example="a transaction with two or more of these elements")
-    return None
+    """The field readers, decided as reader o writer on sized symbolic fields (any arrangement of slices / offsets)."""
+    from . import rt
+    rt.check_field_readers(ctx, oid)
 
 
 def check_tx_deser(ctx, oid="C05.3"):
-    R = ctx.R
-    fi = ctx.fn("bits.tx.tx_deser")
-    opaque = {CS, PCS, "bits.tx.txin_deser", "bits.tx.txout_deser", "bits.script.utils.decode_script", "bits.tx.tx",
-              "bits.tx.txin", "bits.tx.txout", "bits.tx.outpoint"}
-    ev = ctx.evaluator(opaque=opaque)
-    buf = P(fi.params()[0], tm.BYTES)
-    n0 = pcs(tm.slc(buf, 4, None), 0)
-    r0 = pcs(tm.slc(buf, 4, None), 1)
-    segcond = tm.land([tm.cmp("eq", n0, 0), tm.truth(r0)])
-    for seg in (False, True):
-        ev.assumptions = {segcond: seg}
-        s = ev.run(fi)
-        mode = "segwit" if seg else "legacy"
-        R.check(oid, "THREAD", fi, "%s: segwit detection on zero input count + non-empty rest" % mode,
-                not any(tm.contains(e.value, lambda t: tm.veq(t, segcond)) for e in s.returns()),
-                "segwit detection is not `input count == 0 and data follows`")
-        lin = thread_loop(R, fi, s.loops, "bits.tx.txin_deser", "%s: inputs threaded through txin_deser" % mode, oid=oid)
-        lout = thread_loop(R, fi, s.loops, "bits.tx.txout_deser", "%s: outputs threaded through txout_deser" % mode, oid=oid)
-        if seg:
-            lw = thread_loop(R, fi, s.loops, "bits.script.utils.decode_script",
-                             "segwit: witness stacks threaded through decode_script(witness=True)", extra_args=(True, False))
-            if lw is not None:
-                # one stack per input
-                it = lw.iter
-                R.check(oid, "THREAD", fi, "segwit: one witness stack per input",
-                        isinstance(it, T) and it.op == "range" and isinstance(it.args[1], T) and it.args[1].op == "len"
-                        and "bits.tx.txin_deser" in tm.show(it.args[1]) and "txout_deser" not in tm.show(it.args[1].args[0])[:400],
-                        "witness loop does not iterate len(inputs) times: %s" % tm.show(it))
-            if seg:
-                raises = [e for e in s.raises() if e.exc == "AssertionError"]
-                want_flag = tm.cmp("ne", tm.idx(r0, 0), 1)
-                R.check(oid, "DOM", fi, "segwit: flag byte must be 1",
-                        any(any(tm.veq(g, want_flag) for g in e.guard) for e in raises),
-                        "no rejection of a BIP141 flag other than 01")
-        if lin is not None and lout is not None:
-            # input count source: legacy -> first cs; segwit -> cs after marker+flag
-            cnt_in = lin.iter.args[1] if isinstance(lin.iter, T) and lin.iter.op == "range" else None
-            want_cnt = pcs(tm.slc(r0, 1, None), 0) if seg else n0
-            R.check(oid, "THREAD", fi, "%s: input count" % mode, tm.veq(cnt_in, want_cnt),
-                    "input loop bound: %s" % tm.first_diff(cnt_in, want_cnt))
-            start_in = lin.init.get(_remvar(lin, "bits.tx.txin_deser"))
-            want_start = pcs(tm.slc(r0, 1, None), 1) if seg else r0
-            R.check(oid, "THREAD", fi, "%s: inputs start after the count" % mode, tm.veq(start_in, want_start),
-                    "first input parsed from: %s" % tm.first_diff(start_in, want_start))
-            # outputs start from the remainder after inputs, via a cs count parsed from it
-            rem_after_in = s_env_after(lin, "bits.tx.txin_deser")
-            cnt_out = lout.iter.args[1] if isinstance(lout.iter, T) and lout.iter.op == "range" else None
-            ok = isinstance(cnt_out, T) and match(T("proj", (tm.app(PCS, [W("r")], ty=tm.TUPLE), 0)), cnt_out) is not None
-            src = match(T("proj", (tm.app(PCS, [W("r")], ty=tm.TUPLE), 0)), cnt_out) if ok else None
-            ok2 = bool(src) and isinstance(src["r"], T) and src["r"].op == "fold" and "txin_deser" in tm.show(src["r"])
-            R.check(oid, "THREAD", fi, "%s: output count parsed from the remainder after the inputs" % mode, ok and ok2,
-                    "output count comes from %s" % tm.show(cnt_out)[:300],
-                    example="a transaction whose inputs are followed by outputs (stale buffer reuse)")
-            start_out = lout.init.get(_remvar(lout, "bits.tx.txout_deser"))
-            ok3 = bool(src) and tm.veq(start_out, T("proj", (tm.app(PCS, [src["r"]], ty=tm.TUPLE), 1)))
-            R.check(oid, "THREAD", fi, "%s: outputs start after their count" % mode, ok3,
-                    "first output parsed from %s" % tm.show(start_out)[:300])
-        # version / locktime / leftover
-        ret = s.returns()[-1].value if s.returns() else None
-        rt = tuple(ret) if isinstance(ret, (list, tuple)) else None
-        R.check(oid, "TILE", fi, "%s: returns (dict, leftover)" % mode, rt is not None and len(rt) == 2,
-                "tx_deser does not return a pair")
-        if rt:
-            d, left = rt
-            ver = rules.dict_get(d, "version")
-            R.check(oid, "TILE", fi, "%s: version = first 4 bytes LE" % mode,
-                    tm.veq(ver, tm.b2i(tm.slc(buf, None, 4), "little")), "version: %s" % tm.show(ver)[:200])
-            lt = rules.dict_get(d, "locktime")
-            m = match(tm.b2i(T("slice", (W("rem"), None, 4), tm.BYTES), "little"), lt) or \
-                match(tm.b2i(T("slice", (W("rem"), None, 4), tm.ANY), "little"), lt)
-            R.check(oid, "TILE", fi, "%s: locktime = 4 bytes LE at the remainder" % mode, m is not None,
-                    "locktime: %s" % tm.show(lt)[:200])
-            if m:
-                want_left = tm.slc(m["rem"], 4, None)
-                R.check(oid, "TILE", fi, "%s: leftover = remainder after locktime" % mode, tm.veq(left, want_left),
-                        "leftover: %s" % tm.first_diff(left, want_left))
-                last = "decode_script" if seg else "txout_deser"
-                R.check(oid, "THREAD", fi, "%s: locktime read from the remainder after the last %s" % (mode, last),
-                        isinstance(m["rem"], T) and m["rem"].op == "fold" and last in tm.show(m["rem"].args[1]),
-                        "locktime read from %s" % tm.show(m["rem"])[:200])
-    ev.assumptions = {}
+    """tx_deser is decided by the transaction round trip (rt.check_tx_roundtrip, called by the properties that use it):
+    counts, threading of the remainder, one witness stack per input, locktime and leftover are all consequences of it."""
+    return
 
 
 def _remvar(lp, parser):
     for var, val in lp.body.items():
         if isinstance(val, T) and val.op == "proj" and val.args[1] == 1 and parser in tm.show(val):
             return var
-    return None
-
-
-def s_env_after(lp, parser):
     return None
 
 
